@@ -1111,6 +1111,12 @@ impl<'ast, 'res> Resolver<'ast, 'res> {
         }
     }
 
+    /// True when the operand's type is not statically known, so using it can still
+    /// fail with a runtime type error.
+    fn type_known_at_runtime_only(&self, expr: ExprRef<'ast>) -> bool {
+        !matches!(self.infer_expr_type(expr), Some(t) if t != ValueType::Dynamic)
+    }
+
     fn classify_expr(&self, expr: ExprRef<'ast>) -> ExprClass {
         match expr {
             Expr::Number(..) | Expr::Bool(..) | Expr::Null(..) | Expr::Var(..) => {
@@ -1128,13 +1134,23 @@ impl<'ast, 'res> Resolver<'ast, 'res> {
                 .join(ExprClass::PureMayTrap),
             Expr::Binary { op, lhs, rhs, .. } => {
                 let class = self.classify_expr(lhs).join(self.classify_expr(rhs));
-                if matches!(op, BinaryOp::Divide | BinaryOp::Mod) {
+                if matches!(op, BinaryOp::Divide | BinaryOp::Mod)
+                    || self.type_known_at_runtime_only(lhs)
+                    || self.type_known_at_runtime_only(rhs)
+                {
                     class.join(ExprClass::PureMayTrap)
                 } else {
                     class
                 }
             }
-            Expr::Unary { expr, .. } => self.classify_expr(expr),
+            Expr::Unary { expr, .. } => {
+                let class = self.classify_expr(expr);
+                if self.type_known_at_runtime_only(expr) {
+                    class.join(ExprClass::PureMayTrap)
+                } else {
+                    class
+                }
+            }
             Expr::Member { object, .. } => self.classify_expr(object),
             Expr::Call { callee, args, .. } => {
                 let mut class = args
@@ -1152,6 +1168,10 @@ impl<'ast, 'res> Resolver<'ast, 'res> {
                     }
                     Expr::Member { object, field, .. } => {
                         class = class.join(self.classify_expr(object));
+                        // Method lookup on a dynamic receiver is validated at run time.
+                        if self.type_known_at_runtime_only(object) {
+                            class = class.join(ExprClass::PureMayTrap);
+                        }
                         if let Some(builtin) = MemberBuiltin::from_name(field) {
                             class = class.join(effects::member_builtin_class(builtin));
                         } else {
